@@ -323,17 +323,25 @@ PLAN["C03"] = {
 
 PLAN["C19"] = {
     "level": "proof",
-    "explanation": "dump() enters generate_dump with empty per-dump state for every incoming writer state (Kani, complete relative to stubs, thorough); "
-                   "given that, memory_list_stream::write emits exactly the blocks of this dump and exception_stream::write only a context set in this dump (Verus)",
-    "verus": [dict(STACK, functions=["memory_list_stream_write", "exception_stream_write"], tags=["C19"])],
+    "explanation": "dump() proved verbatim (Verus): for EVERY incoming writer state it hands generate_dump the per-request state of a fresh writer with the same configuration "
+                   "(no recorded memory regions, no crashing-thread context, the principal mapping resolved in this request or none) and never changes the configuration; "
+                   "given that, memory_list_stream::write emits exactly the blocks of this dump and exception_stream::write only a context set in this dump (Verus); "
+                   "the same entry obligation is checked on the real callees' signatures by a Kani harness (thorough) and on live targets natively",
+    "verus": [dict(STACK, functions=["memory_list_stream_write", "exception_stream_write"], tags=["C19"]),
+              {"unit": "dump", "functions": ["dump"], "tags": ["C19"], "tiers": Q}],
+    "twins": {"dump": ["native:c19_reuse::second_dump_of_a_reused_writer_equals_a_fresh_one", "native:c19_reuse::reused_writer_after_failed_requests",
+                       "native:c19_reuse::reused_writer_with_unresolvable_principal_address", "native:c19_reuse::reused_writer_with_another_blamed_thread"]},
     "kani": [G_DUMP],
     "native_files": [{"name": "c19_reuse", "tiers": Q, "tests": {
         "second_dump_of_a_reused_writer_equals_a_fresh_one": H("B'", "MinidumpWriter::dump x2 on a live 3-thread child", "one reuse, idle target"),
         "reused_writer_with_another_blamed_thread": H("B'", "MinidumpWriter::dump x2, blamed thread changed in between", "4-thread child"),
         "reused_writer_with_unresolvable_principal_address": H("B'", "MinidumpWriter::dump x2, principal address changed to one that resolves to nothing", "3-thread child"),
         "reused_writer_after_failed_requests": H("B'", "MinidumpWriter::dump x2, first request aborted by a hard error", "unreadable app memory; I/O error at destination write 4, 6, 9")}}],
-    "trusted": ["macOS writer not touched (L4)"],
-    "samples": ["stub of generate_dump asserts: memory_blocks.is_empty() && crashing_thread_context is None  [C19]"],
+    "trusted": ["macOS writer not touched (L4)",
+                "unit dump: everything dump() calls is taken by contract (stand-ins for ErrorList / WriterError / AuxvDumpInfo / PtraceDumper::new_report_soft_errors, suspend_threads and late_init keep the mapping list); generate_dump's frame (configuration unchanged) is assumed there",
+                "writer_inv (a resolved principal mapping implies a configured address) is a precondition: the fields are pub, a caller that assigns principal_mapping directly is outside the statement"],
+    "samples": ["generate_dump requires fresh_request_state(*old(self), *old(dumper))  [C19]  (obligation of dump())",
+                "stub of generate_dump asserts: memory_blocks.is_empty() && crashing_thread_context is None  [C19]"],
 }
 
 PLAN["C15"] = {
